@@ -17,6 +17,7 @@ use roto::{List, NoCtx, TypedFunc, Val};
 use vcore::{Cfg, Check, Cx, Finding, Meta, SUB_SETUP, Tier, Value, Violation, json};
 
 mod free;
+mod nested;
 
 /// The operation menu. `a` is pre-filled to its capacity (4 elements: the next
 /// push relocates the buffer), `b` holds one element.
@@ -567,6 +568,85 @@ fn free_iters(cfg: &Cfg) -> u64 {
 
 const FREE_ROUNDS: u64 = 3;
 
+fn nested_units(cfg: &Cfg) -> usize {
+    nested::programs(cfg.tier).len().div_ceil(PER_UNIT)
+}
+
+/// One unit of the nested family (nested.rs): lists of shared lists.
+fn run_nested(unit: usize, cx: &mut Cx) {
+    if !cx.case(SUB_SETUP) {
+        return;
+    }
+    let rt = host::runtime();
+    let mut pkg = match host::compile(&rt, nested::SCRIPT) {
+        Ok(p) => p,
+        Err(e) => {
+            cx.violation("compile", SUB_SETUP, json!(nested::SCRIPT), json!("compiles"), json!(format!("{e:?}")));
+            return;
+        }
+    };
+    let scripts = nested::Scripts {
+        q2: pkg.get_function("q2").expect("q2"),
+        c2: pkg.get_function("c2").expect("c2"),
+        i2: pkg.get_function("i2").expect("i2"),
+        g2: pkg.get_function("g2").expect("g2"),
+    };
+    let progs = nested::programs(cx.cfg.tier);
+    let b = nested::bound(cx.cfg.tier);
+    let lo = unit * PER_UNIT;
+    let hi = (lo + PER_UNIT).min(progs.len());
+    for i in lo..hi {
+        let sub = (i - lo) as u64;
+        if !cx.case(sub) {
+            continue;
+        }
+        let p = &progs[i];
+        let mut schedules = 0;
+        let mut points = 0;
+        let mut n_out = 0;
+        let mut failures = vec![];
+        // both address orders of the two outer lists (the lock order of `==` depends on it)
+        for o1_low in [true, false] {
+            let (st, f1) = nested::run_program(p, o1_low, b, &scripts);
+            schedules += st.schedules;
+            points += st.points;
+            n_out += st.outcomes;
+            for mut f in f1 {
+                f.detail = json!({"o1_has_lower_address": o1_low, "detail": f.detail});
+                failures.push(f);
+            }
+        }
+        cx.states(schedules);
+        cx.transitions(points);
+        cx.validated(schedules);
+        cx.count("programs", 1);
+        cx.count("nested_programs", 1);
+        cx.count("nested_schedules", schedules);
+        cx.count("distinct_interleaving_outcomes_sum", n_out);
+        if n_out > 2 {
+            cx.nontrivial(vcore::util::fnv_str(&format!("nested{p:?}")));
+        }
+        cx.outcome(vcore::util::mix(vcore::util::fnv_str(&format!("nested{p:?}")), n_out));
+        if i == lo && unit % 16 == 0 {
+            cx.sample(json!({"family": "nested", "program": nested::prog_json(p), "schedules": schedules,
+                              "preemption_bound": b, "distinct_outcomes": n_out}));
+        }
+        for f in failures {
+            cx.violation(
+                f.class.clone(),
+                sub,
+                json!({"family": "nested: o1=[y1,x1,e,e] o2=[y2,x2,e,e], y1=y2=x1=e=[], x2=[7]",
+                       "program": nested::prog_json(p), "ops": p.iter().flatten().map(|o| format!("{o:?}")).collect::<Vec<_>>(),
+                       "schedule": f.schedule, "preemptions": f.preemptions,
+                       "failing_executions": f.count, "of_schedules": schedules, "detail": f.detail}),
+                json!("no stale/unguarded element pointer, no deadlock, linearizable history"),
+                json!(f.class),
+            );
+        }
+    }
+    cx.request_restart();
+}
+
 /// One case of the supplementary free-running pass (free.rs), FREE_ROUNDS times.
 fn run_free(i: usize, cx: &mut Cx) {
     if !cx.case(SUB_SETUP) {
@@ -624,7 +704,7 @@ impl Check for C16 {
         "C16"
     }
     fn units(&self, cfg: &Cfg) -> usize {
-        scheduled_units(cfg) + free::cases().len()
+        scheduled_units(cfg) + nested_units(cfg) + free::cases().len()
     }
     fn case_timeout_s(&self, cfg: &Cfg) -> f64 {
         cfg.tier.pick(120.0, 600.0)
@@ -634,8 +714,11 @@ impl Check for C16 {
         hook_lint()
     }
     fn run_unit(&self, unit: usize, cx: &mut Cx) {
+        if unit >= scheduled_units(&cx.cfg) + nested_units(&cx.cfg) {
+            return run_free(unit - scheduled_units(&cx.cfg) - nested_units(&cx.cfg), cx);
+        }
         if unit >= scheduled_units(&cx.cfg) {
-            return run_free(unit - scheduled_units(&cx.cfg), cx);
+            return run_nested(unit - scheduled_units(&cx.cfg), cx);
         }
         let progs = all_programs(cx.cfg.tier);
         let sh = shapes(cx.cfg.tier);
@@ -727,8 +810,16 @@ impl Check for C16 {
         cx.request_restart();
     }
     fn describe(&self, cfg: &Cfg, unit: usize, sub: u64) -> Value {
+        if unit >= scheduled_units(cfg) && unit < scheduled_units(cfg) + nested_units(cfg) {
+            if sub == SUB_SETUP {
+                return json!({"setup": nested::SCRIPT});
+            }
+            let progs = nested::programs(cfg.tier);
+            let i = (unit - scheduled_units(cfg)) * PER_UNIT + sub as usize;
+            return json!({"family": "nested", "program": progs.get(i).map(nested::prog_json)});
+        }
         if unit >= scheduled_units(cfg) {
-            let c = free::cases()[unit - scheduled_units(cfg)];
+            let c = free::cases()[unit - scheduled_units(cfg) - nested_units(cfg)];
             return json!({"pass": "free-running (not exhaustive)", "element_type": format!("{:?}", c.elem),
                           "threads": [c.writer.name(), c.writer.name(), c.other.name(), c.other.name()],
                           "ops": [format!("{:?}", c.writer), format!("{:?}", c.other)],
@@ -760,7 +851,14 @@ impl Check for C16 {
                     .as_array()
                     .map(|a| a.iter().filter_map(|x| x.as_str()).collect())
                     .unwrap_or_default();
-                class_ok && (need.is_empty() || has(&need)) && need_all.iter().all(|n| ops.contains(n))
+                let need2: Vec<&str> = f.params["ops_any2"]
+                    .as_array()
+                    .map(|a| a.iter().filter_map(|x| x.as_str()).collect())
+                    .unwrap_or_default();
+                class_ok
+                    && (need.is_empty() || has(&need))
+                    && (need2.is_empty() || has(&need2))
+                    && need_all.iter().all(|n| ops.contains(n))
             }
             _ => false,
         }
@@ -778,6 +876,11 @@ impl Check for C16 {
                     "menu": menu(cfg.tier, s).iter().map(|o| o.name()).collect::<Vec<_>>(),
                     "preemption_bound": if bound(cfg.tier, s) == usize::MAX { json!("unbounded") } else { json!(bound(cfg.tier, s)) }})).collect::<Vec<_>>(),
                 "initial": [{"a": [1,2,3,4], "a_capacity": 4, "b": [5]}, {"a": [7], "b": []}],
+                "nested_family": {"lists": "o1=[y1,x1,e,e] o2=[y2,x2,e,e] (List<List<u64>>, outer buffers full), y1=y2=x1=e=[], x2=[7]; inner address order fixed, both address orders of o1/o2",
+                                  "threads": 2, "ops_per_thread": 2, "programs": nested::programs(cfg.tier).len(),
+                                  "menu": nested::menu(cfg.tier).iter().map(|o| o.name()).collect::<Vec<_>>(),
+                                  "preemption_bound": nested::bound(cfg.tier),
+                                  "oracle": "strong linearizability (every call atomic) w.r.t. the model of five shared inner vectors and two outer vectors of handles; a history explained only by per-pair reads inside one deep read is class non-linearizable:deep-read-torn"},
                 "free_running_pass": {"exhaustive": false, "cases": free::cases().len(), "threads": 4,
                                       "iterations_per_thread": free_iters(cfg), "rounds": FREE_ROUNDS},
             }),
